@@ -75,6 +75,13 @@ def battery(seed, tier, n):
         elif r < 0.85:
             t = ("Add",) + tuple(("Multiply", ("Variable", a), ("Logarithm", ("Add", ("NthPower", ("Variable", b), 2), ("Constant", 1)), None))
                                    for a, b in zip(names, names[1:] + names[:1]))
+        elif r < 0.92:
+            # flat products / sums of distinct BARE variables (shortcuts for "simple" shapes live here), plain or nested
+            k = rng.choice(["Multiply", "Multiply", "Add"])
+            t = (k,) + tuple(("Variable", a) for a in names)
+            if rng.random() < 0.5:
+                t = rng.choice([("Logarithm", ("Add", ("NthPower", t, 2), ("Constant", 1)), None), ("Sine", t), ("Add", t, ("Variable", names[0])),
+                                ("Multiply", ("Constant", 0.3), t), ("Exponential", ("Multiply", ("Constant", 0.01), t), None)])
         else:
             t = ("Multiply",) + tuple(rng.choice([("Exponential", ("Variable", a), 2), ("NthPower", ("Variable", a), 2), ("NthRoot", ("Add", ("NthPower", ("Variable", a), 2), ("Constant", 1)), 2),
                                                    ("Logarithm", ("Add", ("NthPower", ("Variable", a), 2), ("Constant", 2)), None)]) for a in names)
